@@ -84,6 +84,34 @@ BINARY = {np.arctan2: "Scalar.atan2", math.atan2: "Scalar.atan2", np.power: "Sca
           np.multiply: "*", np.add: "+", np.subtract: "-", np.divide: "/", np.true_divide: "/"}
 
 
+class LitF(float):
+    """a float written as a literal in the source: keeps its spelling (`1e8` stays `1e8`, not `100000000.0`)"""
+    text = ""
+
+
+def src_literal(node: ast.Constant, source: str):
+    v = node.value
+    if isinstance(v, float) and math.isfinite(v) and v >= 0:
+        t = (ast.get_source_segment(source, node) or "").replace("_", "").lower()
+        try:
+            ok = float(t) == v and all(c in "0123456789.e+-" for c in t) and t[0] != "-" and "j" not in t
+        except Exception:  # noqa
+            ok = False
+        if ok:
+            m, _, e = t.partition("e")
+            if m.startswith("."):
+                m = "0" + m
+            if m.endswith("."):
+                m += "0"
+            if "." not in m and not e:
+                return v
+            t = m + (f"e{int(e)}" if e else "")
+            r = LitF(v)
+            r.text = t
+            return r
+    return v
+
+
 def lit(x) -> str:
     """a Lean literal of type α for a concrete Python number"""
     if isinstance(x, (bool, np.bool_)):
@@ -95,6 +123,8 @@ def lit(x) -> str:
         if x.ndim == 0:
             return lit(x[()])
         raise Unsupported(f"a concrete array of shape {x.shape} in a symbolic expression")
+    if isinstance(x, LitF):
+        return f"({x.text} : α)"
     if isinstance(x, (float, np.floating)):
         x = float(x)
         if not math.isfinite(x):
@@ -224,7 +254,8 @@ class Translator:
         if not isinstance(node, ast.FunctionDef):
             raise Unsupported(f"{spec.qualname} is not a function")
         self.fn = node
-        seg = ast.get_source_segment(mfile.read_text(), node) or ""
+        self.file_text = mfile.read_text()
+        seg = ast.get_source_segment(self.file_text, node) or ""
         self.src_sha = hashlib.sha256(ast.dump(node, include_attributes=False).encode()).hexdigest()
         self.src_loc = f"{mfile.relative_to(repo_src.resolve().parent) if repo_src.resolve().parent in mfile.parents else mfile.name}:{node.lineno}-{node.end_lineno}"
         self.src_text = seg
@@ -351,11 +382,18 @@ class Translator:
 
     # ------------------------------------------------------------------ expressions
     def ev(self, node, st):
+        if isinstance(node, ast.Constant):
+            return src_literal(node, self.file_text)
         if self.is_concrete(node, st):
             try:
-                return self.concrete(node, st)
+                v = self.concrete(node, st)
             except Exception as e:  # noqa
                 raise Unsupported(f"cannot evaluate `{ast.unparse(node)}` in the live module: {type(e).__name__}: {e}")
+            # floating-point arithmetic between constants is NOT folded: `R**2` stays `R * R`, so that the definition means
+            # the same expression over the reals (a folded double would be a different real number)
+            if isinstance(node, (ast.BinOp, ast.UnaryOp)) and isinstance(v, (float, np.floating)) and not isinstance(node.op, (ast.BitAnd, ast.BitOr, ast.Invert, ast.Not)):
+                return getattr(self, "ev_" + type(node).__name__)(node, st)
+            return v
         m = getattr(self, "ev_" + type(node).__name__, None)
         if m is None:
             raise Unsupported(f"expression `{ast.unparse(node)}` ({type(node).__name__})")
